@@ -15,6 +15,7 @@ CONSTANTS
   Confs = {"implementation", "testCompile"}
   SurroundLevel = 1
   SrcMax = 0
+  ImpMax = 2
   Units = {"class"}
   ExtraImports = {}
 INVARIANTS C19_NoPanic C19_ExtractedExact C19_PrefixExact C19_OtherNotationsSkipped C19_UnusedExact Emit
